@@ -38,7 +38,7 @@ impl Prop for ConfigDiff {
                 gen::any_input(f, true),
                 (gen::cap_spec(), gen::policy_permissive(), gen::script()),
                 (gen::cap_spec(), gen::policy_permissive(), gen::script()),
-                prop_oneof![2 => Just(Mode::Next), 2 => Just(Mode::Sets), 1 => Just(Mode::Records)],
+                prop_oneof![4 => Just(Mode::Next), 4 => Just(Mode::Sets), 2 => Just(Mode::Records), 2 => prop_oneof![6 => 1u8..6, 1 => 250u8..=255].prop_map(Mode::Exact)],
             )
                 .prop_map(move |(input, a, b, mode)| {
                     let a = cfg_for(f, &input, &a.0, a.1, a.2);
@@ -73,6 +73,7 @@ impl Prop for ConfigDiff {
         ctx.class(match c.mode {
             Mode::Next => "mode: next",
             Mode::Sets => "mode: record sets",
+            Mode::Exact(_) => "mode: record sets filled with read_record_set_exact(n)",
             _ => "mode: records()",
         });
         if ga != gb {
@@ -92,6 +93,19 @@ impl Prop for ConfigDiff {
         }
         if c.mode == Mode::Sets && ra.batches != rb.batches {
             ctx.class("batch boundaries differ");
+        }
+        if let Mode::Exact(n) = c.mode {
+            // exact-count batches do not depend on the configuration either
+            ensure!(
+                ra.batches == rb.batches,
+                format!("{}/exact/batch-sizes-depend-on-configuration", f),
+                "read_record_set_exact({}) delivered batches of {:?} records with configuration A (cap {}) and {:?} with B (cap {})",
+                crate::interp::exact_count(n),
+                ra.batches,
+                c.a.cap,
+                rb.batches,
+                c.b.cap
+            );
         }
         if differ && ra.outs.len() > 3 {
             ctx.nontrivial(&(c.format, &c.input, &c.a, &c.b, c.mode), c);
@@ -141,6 +155,9 @@ impl Prop for ConfigDiff {
                 }
             }
         };
+        // (exact-count reads keep earlier records of the batch in the buffer: the size they need is not a function of
+        // the record extents alone, so the rerun is restricted to the other modes)
+        let needed = if matches!(c.mode, Mode::Exact(_)) { None } else { needed };
         let tight = match (c.a.policy, needed) {
             (crate::policy::PolKind::Std, Some(n)) if n < (1 << 22) => Some((crate::policy::PolKind::RefuseAbove(n as u32), n)),
             (crate::policy::PolKind::DoubleUntil(t), Some(n)) => Some((crate::policy::PolKind::DoubleUntilLimited(t, n as u32), n)),
@@ -168,7 +185,7 @@ impl Prop for ConfigDiff {
         }
         for i in 0..ra.pos.len().min(rb.pos.len()) {
             match c.mode {
-                Mode::Sets => {
+                Mode::Sets | Mode::Exact(_) => {
                     if let (Some(pa), Some(pb)) = (ra.pos[i], rb.pos[i]) {
                         ensure!(
                             pa == pb,
@@ -201,7 +218,7 @@ impl Prop for ConfigDiff {
     }
 }
 
-pub const RULE: &str = "cases = (format, any input incl. out-of-domain FASTQ, configuration A, configuration B, mode in {next, records(), plain record-set loop}); configuration = capacity (absolute or aimed at record boundaries) x permissive policy (Std, DoubleUntil, Add(k), DoubleUntilLimited with huge limit) x chunk script (all / 1 / 2 / 3 / random) x Interrupted pattern (none / scattered / storm). Oracle: the two flat traces (records, errors with all fields, positions, End point) are identical; additionally configuration A is re-run with the tightest limited policy that still permits every size it adopted (RefuseAbove / DoubleUntilLimited with limit = the first size of the policy's growth chain at which the largest record fits) and must give the same outcome. Exhaustive sub-checks: every string up to length 5 (thorough: 7) over a structural alphabet x every pair of capacities 3..8 (thorough: 3..10), even capacities read one byte at a time. Non-trivial = the two runs really exercised different buffer alignments (different capacity, number of source reads or growth steps) and at least one record or error was produced. Distinct = hash(case).";
+pub const RULE: &str = "cases = (format, any input incl. out-of-domain FASTQ, configuration A, configuration B, mode in {next, records(), plain record-set loop, record-set loop with read_record_set_exact(n), n in 1..5 or huge}); configuration = capacity (absolute or aimed at record boundaries) x permissive policy (Std, DoubleUntil, Add(k), DoubleUntilLimited with huge limit) x chunk script (all / 1 / 2 / 3 / random) x Interrupted pattern (none / scattered / storm). Oracle: the two flat traces (records, errors with all fields, positions, End point) are identical; additionally configuration A is re-run with the tightest limited policy that still permits every size it adopted (RefuseAbove / DoubleUntilLimited with limit = the first size of the policy's growth chain at which the largest record fits) and must give the same outcome. Exhaustive sub-checks: every string up to length 5 (thorough: 7) over a structural alphabet x every pair of capacities 3..8 (thorough: 3..10), even capacities read one byte at a time. Non-trivial = the two runs really exercised different buffer alignments (different capacity, number of source reads or growth steps) and at least one record or error was produced. Distinct = hash(case).";
 
 pub fn run(tier: Tier) -> i32 {
     let mut run = Run::new("C03", tier, "exploration");
